@@ -819,10 +819,10 @@ func c09NoDrop(c *Ctx) {
 			return false
 		}
 		return c.fc.mayContain(f, func(i ssa.Instruction) bool {
-			switch x := i.(type) {
-			case *ssa.Send:
-				return true
-			case *ssa.Store:
+			if len(sendsOf(i)) > 0 {
+				return true // a send statement, or the send case of a select (`select { case l.items <- it: case <-l.quit: }`)
+			}
+			if x, ok := i.(*ssa.Store); ok {
 				if fa, ok := x.Addr.(*ssa.FieldAddr); ok && startF != nil && fieldOf(fa.X.Type(), fa.Field) == startF {
 					return true
 				}
